@@ -16,7 +16,7 @@ PROP = dict(
          "source text; sources: fixed witnesses, byte sources with invalid UTF-8, the repository's tests/data/*.src, seeded generated sources (quoted fields, "
          "repeated delimiters, comments, duplicates, homophones, prefix keys, CRLF, no final newline, non-BMP text, u32 "
          "limits) x all 8 configurations (2 back ends x keep x skip) in the source's format, every dump compiled again in "
-         "its own format, and ~30 single-line corruptions per line (all lines of the first sources, sampled for the rest) "
+         "its own format, and ~35 single-line corruptions per line (all lines of the first sources, sampled for the rest) "
          "x skip/no-skip. distinct = distinct record text",
     trusted_base=["kernel evaluation (`decide`) of small concrete witnesses and of one 42-row table fact; no native_decide",
                   "`chewing-cli info` (metadata given with -n/-c/-l/-r is reported by both back ends, text and JSON) is checked by "
@@ -68,7 +68,7 @@ MANIFEST = dict(
          "first-tone mark is not dumped), RecompiledLookupFull (F34). FIXED by six fix: commits (3149ea9 no-syllables, 9f78db5 empty-phrase, "
          "38ee0e4 word-freq-unchecked, 76e3e3a invalid-utf8, fd01973 phrase-whitespace, 7df7fb4 length-mismatch): f27_witnesses_rejected "
          "keeps the former witnesses as theorems about the repaired parser. CORRESPONDENCE: the REAL chewing-cli binary built from the tree is run on fixed, repository and generated "
-         "sources and on ~30 single-line corruptions per line; exit status, reported line numbers, output existence, complete "
+         "sources and on ~35 single-line corruptions per line; exit status, reported line numbers, output existence, complete "
          "dump texts and library lookups (original and recompiled file) are recomputed by the model; the harness oracle "
          "evaluates the property statement directly and classifies every failure exactly (known class or new).",
     note="Trusted: Lean kernel (axioms propext, Classical.choice, Quot.sound only), tools/extract.py, the harness and the "
